@@ -36,6 +36,161 @@ theorem C08_moleculetype_sections_collected :
       "virtual_sitesn", "settles"].all fun x => handlerOf ["moleculetype", x] == some "_molecule") = true := by
   decide
 
+/-! ### the translated literals of `top_parser.py`
+
+The model reads `defaultNames`, `defaultNumbered`, the inserted `gen-pairs` default, the `[ atomtypes ]` field
+names and its float fields from `Generated/Top.lean` (re-translated from the source on every run).  The literals
+the model keeps (because `Proofs/C08Flatten*.lean` unfold them: `inverseCond`, the three executed pragmas of
+`doPragma`, the comment character of `stripComment`, the `('moleculetype',)` header action of `doHeader`) are
+tied to the translated tables by the theorems below: a change of such a literal in the source breaks a proof
+obligation here instead of being sampled by the correspondence. -/
+
+/-- the two lists have the same elements (tables that are Python dicts: the order is irrelevant) -/
+def sameElems {α} [BEq α] (a b : List α) : Bool := a.all b.contains && b.all a.contains
+
+/-- `TOPDirector.COMMENT_CHAR` is `;`, the character the model's `stripComment` cuts a raw line at. -/
+theorem C08_comment_char :
+    Tables.Top.commentChar = ';' ∧ ∀ l : List Char, stripComment l = l.takeWhile (· != Tables.Top.commentChar) :=
+  ⟨by decide, fun _ => rfl⟩
+
+example : tokenize "a b ; c" = ["a", "b"] ∧ tokenize "a # b" = ["a", "#", "b"] := by decide
+
+/-- The model's `inverseCond` (what `#else` does to the open condition) IS the translated dict `inverse` of
+`parse_top_pragma` — for every string —, it is an involution without fixed point, and it is defined exactly on
+`ifdef` and `ifndef` (the two conditions `#ifdef/#ifndef` can store; anything else is a `KeyError` in the code and
+an error in the model). -/
+theorem C08_inverse_table :
+    (∀ c, inverseCond c = assocGet Tables.Top.inverseCond c) ∧
+    (∀ c c', inverseCond c = some c' → inverseCond c' = some c ∧ c' ≠ c) ∧
+    (∀ c, (inverseCond c).isSome = (c == "ifdef" || c == "ifndef")) := by
+  refine ⟨?_, ?_, ?_⟩
+  · intro c
+    simp only [inverseCond, assocGet, Tables.Top.inverseCond, List.find?]
+    by_cases h1 : c = "ifdef"
+    · subst h1; decide
+    · by_cases h2 : c = "ifndef"
+      · subst h2; decide
+      · have e1 : ("ifdef" == c) = false := by simpa using fun h => h1 h.symm
+        have e2 : ("ifndef" == c) = false := by simpa using fun h => h2 h.symm
+        simp [h1, h2, e1, e2]
+  · intro c c' h
+    unfold inverseCond at h
+    split at h
+    · rename_i h1
+      have : c = "ifdef" := by simpa using h1
+      subst this; cases h; decide
+    · split at h
+      · rename_i _ h2
+        have : c = "ifndef" := by simpa using h2
+        subst this; cases h; decide
+      · cases h
+  · intro c
+    unfold inverseCond
+    by_cases h1 : c = "ifdef"
+    · subst h1; decide
+    · by_cases h2 : c = "ifndef"
+      · subst h2; decide
+      · simp [h1, h2]
+
+example : inverseCond "ifdef" = some "ifndef" ∧ inverseCond "ifndef" = some "ifdef" ∧ inverseCond "else" = none := by decide
+
+/-- `self.pragma_actions` of `TOPDirector.__init__` has exactly the keys `#define`, `#include`, `#error`, each bound
+to the method the model's `doPragma` implements under that first token (`parse_define`, `parse_include`,
+`parse_error`). -/
+theorem C08_pragma_actions_anchor :
+    sameElems Tables.Top.pragmaActions
+      [("#define", "parse_define"), ("#include", "parse_include"), ("#error", "parse_error")] = true ∧
+    Tables.Top.pragmaActions.length = 3 := by decide
+
+/-- `doPragma` dispatches like `elif line.split()[0] in self.pragma_actions: ... else: raise IOError`: a pragma
+line that is none of the conditional forms and whose first token is NOT a key of the translated `pragma_actions`
+is the error "unknown-pragma" — for every token list.  (With `C08_pragma_actions_anchor`: the first tokens
+`doPragma` executes are exactly the translated keys; `C08_error_iff` is the `#error` handler.) -/
+theorem C08_pragma_dispatch (inc : Path → Glob → Except String Glob) (dir : Path) (g : Glob) (l : Loc) (toks : List String)
+    (h0 : toks ≠ ["#endif"]) (h1 : startsWith (toks.headD "") "#else" = false)
+    (h2 : startsWith (toks.headD "") "#ifdef" = false) (h3 : startsWith (toks.headD "") "#ifndef" = false)
+    (h : assocGet Tables.Top.pragmaActions (toks.headD "") = none) :
+    doPragma inc dir g l toks = .error "unknown-pragma" := by
+  have e0 : (toks == ["#endif"]) = false := by simpa using h0
+  have d1 : toks.headD "" ≠ "#define" := by
+    intro d; rw [d] at h; revert h; decide
+  have d2 : toks.headD "" ≠ "#include" := by
+    intro d; rw [d] at h; revert h; decide
+  have d3 : toks.headD "" ≠ "#error" := by
+    intro d; rw [d] at h; revert h; decide
+  simp only [List.headD_eq_head?_getD] at h1 h2 h3 d1 d2 d3
+  simp [doPragma, e0, h1, h2, h3, d1, d2, d3]
+
+example : errOf (readSingle ["#undef FLEXIBLE"]) = some "unknown-pragma" ∧
+    assocGet Tables.Top.pragmaActions "#undef" = none ∧
+    errOf (readSingle ["#define FLEXIBLE"]) = none ∧ assocGet Tables.Top.pragmaActions "#define" = some "parse_define" := by
+  decide
+
+/-- `self.header_actions` of `TOPDirector.__init__` is `{('moleculetype',): self._new_itp}`: the only section path
+with a header action is the one `doHeader` tests for (for every path). -/
+theorem C08_header_actions_anchor :
+    Tables.Top.headerActions = [(["moleculetype"], "_new_itp")] ∧
+    (∀ sec : List String, Tables.Top.headerActions.any (·.1 == sec) = (sec == ["moleculetype"])) := by
+  refine ⟨by decide, ?_⟩
+  intro sec
+  simp only [Tables.Top.headerActions, List.any_cons, List.any_nil, Bool.or_false]
+  rw [Bool.eq_iff_iff]; simp only [beq_iff_eq]; exact eq_comm
+
+example : (doHeader {} "moleculetype").itp = some [.hdr "moleculetype"] ∧ (doHeader {} "atomtypes").itp = none := by decide
+
+/-- The translated locals of `_defaults`: `nbfunc` is the first name (the Buckingham test reads it), the names
+are distinct, `gen-pairs` is one of them and is the one that gets the default `"no"`, and the numbered terms are
+exactly all the other names. -/
+theorem C08_defaults_anchor :
+    defaultNames.head? = some "nbfunc" ∧
+    Tables.Top.genPairsDefault = ("gen-pairs", "no") ∧
+    defaultNames.contains "gen-pairs" = true ∧
+    defaultNumbered = defaultNames.filter (· != "gen-pairs") ∧
+    defaultNames.eraseDups = defaultNames ∧
+    defaultNames.length = 5 := by decide
+
+/-- What a `[ defaults ]` line that is accepted leaves behind, for every token list: `gen-pairs` is always bound
+(to the third token, to `"no"` when there are fewer than three), every key is one of the translated names, and
+every value other than `gen-pairs` is a number token. -/
+theorem C08_defaults_gen_pairs (toks : List String) (d : List (String × String)) (h : doDefaults toks = .ok d) :
+    assocGet d "gen-pairs" = some (toks.getD 2 "no") ∧
+    (∀ kv ∈ d, defaultNames.contains kv.1 = true) ∧
+    (∀ kv ∈ d, kv.1 ≠ "gen-pairs" → isFloatTok kv.2 = true) := by
+  unfold doDefaults at h
+  rcases toks with _ | ⟨a, _ | ⟨b, _ | ⟨c, _ | ⟨e, _ | ⟨f, rest⟩⟩⟩⟩⟩ <;>
+    simp [defaultNames, defaultNumbered, Tables.Top.defaultNames, Tables.Top.defaultNumbered, Tables.Top.genPairsDefault,
+      assocGet, List.zip] at h
+  all_goals
+    split at h
+    · cases h
+    · split at h
+      · cases h
+      · rename_i hf
+        injection h with h
+        subst h
+        simp only [not_or, Bool.not_eq_false] at hf
+        simp [assocGet, defaultNames, Tables.Top.defaultNames, hf]
+
+example : okOf (doDefaults ["1", "2"]) = some [("nbfunc", "1"), ("comb-rule", "2"), ("gen-pairs", "no")] ∧
+    okOf (doDefaults ["1", "2", "yes", "0.5", "0.8333"])
+      = some [("nbfunc", "1"), ("comb-rule", "2"), ("gen-pairs", "yes"), ("fudgeLJ", "0.5"), ("fudgeQQ", "0.8333")] ∧
+    errOf (doDefaults ["1", "2", "yes", "0.5", "x"]) = some "defaults-not-a-number" := by decide
+
+/-- The translated field list of `_atomtypes` has the seven names the model's `AtomTypeRow` is built from, at the
+positions 0..6 of the REVERSED token list, and the translated `floats` are fields, namely those at the positions
+0, 1, 3, 4, 5 (everything but `ptype` and `bond_type`). -/
+theorem C08_atomtype_anchor :
+    atomFloatIdxs = [0, 1, 3, 4, 5] ∧
+    ["nb2", "nb1", "ptype", "charge", "mass", "atom_num", "bond_type"].map atomFieldIdx
+      = [some 0, some 1, some 2, some 3, some 4, some 5, some 6] ∧
+    atomTypeFields.length = 7 ∧
+    (Tables.Top.atomTypeFloats.all atomTypeFields.contains) = true := by decide
+
+example : okOf (doAtomType ["CT", "6", "12.011", "0.0", "A", "0.35", "0.276"])
+      = some ("CT", ⟨some "0.276", some "0.35", some "A", some "0.0", some "12.011", some "6", none⟩) ∧
+    errOf (doAtomType ["CT", "12.011", "0.0", "A", "x", "0.276"]) = some "atomtype-not-a-number" ∧
+    errOf (doAtomType ["CT", "12.011", "0.0", "0.5", "0.35", "0.276"]) = none := by decide
+
 /-! ### comments, blank lines, whitespace -/
 
 /-- The reader sees a file only through its classified lines: two file trees whose files have the same
